@@ -289,4 +289,60 @@ theorem seenSt_restart (x : HWS) (h : x.w.v.mempool = []) : SeenSt x := by
   rw [h] at hm
   cases hm
 
+-- ------------------------------------------------------------------ the old theorems are corollaries, in general
+
+/-- the ghost set only grows along a history -/
+theorem dead_mono (E : HEnv) : ∀ (evs : List HEv) (x : HWS), ∀ y ∈ worldsS E x evs, ∀ id ∈ x.dead, id ∈ y.1.dead := by
+  intro evs
+  induction evs with
+  | nil => intro x y hy; cases hy
+  | cons ev evs ih =>
+    intro x y hy id hid
+    simp only [worldsS, List.mem_cons] at hy
+    rcases hy with rfl | hy
+    · exact hid
+    · exact ih (stepS E x ev) y hy id (List.mem_append_left _ hid)
+
+/-- the seen-sets a history installs by volatile events -/
+def volIds : List HEv → List TxId
+  | [] => []
+  | .vol v :: evs => v.mempool ++ volIds evs
+  | _ :: evs => volIds evs
+
+theorem mem_volIds {evs : List HEv} {v : Vol} (h : HEv.vol v ∈ evs) {id : TxId} (hid : id ∈ v.mempool) :
+    id ∈ volIds evs := by
+  induction evs with
+  | nil => cases h
+  | cons ev evs ih =>
+    rcases List.mem_cons.1 h with h1 | h1
+    · subst h1; exact List.mem_append_left _ hid
+    · cases ev with
+      | vol v' => exact List.mem_append_right _ (ih h1)
+      | node n => exact ih h1
+      | recv t => exact ih h1
+      | connect b => exact ih h1
+      | disconnect => exact ih h1
+
+/-- the ghost set that makes ANY history of the old domain a history of the new one: what the follower remembers at the
+    start and what the volatile events of the history install -/
+def ghost0 (w : HW) (evs : List HEv) : HWS := { w := w, dead := w.v.mempool ++ volIds evs }
+
+theorem seenSt_ghost0 (w : HW) (evs : List HEv) : SeenSt (ghost0 w evs) := by
+  intro id hm
+  refine Or.inr (Or.inr (List.mem_append_left _ ?_))
+  rw [List.contains_eq_mem, decide_eq_true_eq] at hm
+  exact hm
+
+/-- **EVERY history inside the old domain `HOKf` is inside `HOKS`** over the world with the ghost set `ghost0`; the world
+    satisfies the seen-set invariant at the start.  So `credit_refines` / `pending_refines` ARE corollaries of
+    `pending_refines_seen` (`runS_w`: same model and specification components). -/
+theorem hokf_embeds_all {rank : TxId → Nat} {E : HEnv} (evs : List HEv) (w : HW) (H : HInvC rank E w)
+    (hD : ∀ y ∈ worldsH E w evs, HOKf rank E y.1 y.2) :
+    SeenSt (ghost0 w evs) ∧ ∀ y ∈ worldsS E (ghost0 w evs) evs, HOKS rank E y.1 y.2 := by
+  refine ⟨seenSt_ghost0 w evs, hokf_embeds evs (ghost0 w evs) H hD ?_⟩
+  intro y hy v hv id hm
+  refine Or.inr (Or.inr (dead_mono E evs (ghost0 w evs) y hy id (List.mem_append_right _ ?_)))
+  rw [List.contains_eq_mem, decide_eq_true_eq] at hm
+  exact mem_volIds (hv ▸ worldsS_ev E evs (ghost0 w evs) y hy) hm
+
 end MW.Lemmas.PendHist.Seen
